@@ -143,7 +143,13 @@ func runScenario(sc *scen.Scenario, out *bufio.Writer) {
 
 	w.attach()
 	w.applyWorldParams()
-	w.emit(scen.Event{K: "start", S: fmt.Sprintf("testing=%v level=%d src=%s", is.InTesting(), int(slog.GetLevel()), srcDir())})
+	// the printed names of the built-in levels, as this build of logg prints them (oracles that
+	// read a record's level field compare with these, not with a table of their own)
+	names := make([]string, int(slog.MaxLevel))
+	for l := range names {
+		names[l] = slog.Level(l).String()
+	}
+	w.emitV(scen.Event{K: "start", S: fmt.Sprintf("testing=%v level=%d src=%s", is.InTesting(), int(slog.GetLevel()), srcDir())}, map[string]any{"names": names})
 
 	// setup by task 0, unscheduled
 	w.sch = nil
